@@ -67,7 +67,8 @@ COND_MAX = 1e8
 RESOLS = {
     "elastic": ["elim", "lagr_trivial", "lagr_active"],
     "thermal": ["elim", "lagr_trivial", "lagr_active"],
-    "beam": ["elim", "conn_fixed", "conn_hinged"],
+    # conn_slider: a partial connection on unknowns that are NOT a leading prefix of (x, y, rz): add_connection(nodes, ["y", "rz"])
+    "beam": ["elim", "conn_fixed", "conn_hinged", "conn_slider"],
     "damage": ["elim"],
     "advdiff": ["elim", "lagr_trivial", "lagr_active"],
 }
@@ -125,6 +126,8 @@ def supported(problem, resol, prog):
     atoms = set(prog.split(">"))
     if problem == "beam" and resol == "conn_hinged":
         return "dBf" in atoms  # the hinged member needs its tip held
+    if problem == "beam" and resol == "conn_slider":
+        return "dBf" in atoms  # the sliding member needs its x translation held
     return bool(atoms & SUFFICIENT[problem])
 
 
@@ -503,9 +506,9 @@ def apply_program(simu, pt, spec, order):
 def lagrange_specs(spec, resol, u_elim):
     """reference description of the multiplier constraints: list of (dofs, coefs, value)."""
     d = spec.dof_n
-    if resol in ("conn_fixed", "conn_hinged"):
+    if resol in ("conn_fixed", "conn_hinged", "conn_slider"):
         a, b = spec.joint
-        comps = [0, 1, 2] if resol == "conn_fixed" else [0, 1]
+        comps = {"conn_fixed": [0, 1, 2], "conn_hinged": [0, 1], "conn_slider": [1, 2]}[resol]
         return [([a * d + c, b * d + c], [1.0, -1.0], 0.0) for c in comps]
     if resol in ("lagr_trivial", "lagr_active"):
         out = []
@@ -526,6 +529,8 @@ def add_lagrange(simu, pt, spec, resol, lspecs):
         simu.add_connection_fixed(np.array(spec.joint))
     elif resol == "conn_hinged":
         simu.add_connection_hinged(np.array(spec.joint))
+    elif resol == "conn_slider":
+        simu.add_connection(np.array(spec.joint), ["y", "rz"], "slider")
     else:
         d = spec.dof_n
         for dofs, coefs, val in lspecs:
@@ -762,7 +767,7 @@ def run_case(case):
     # ---- solvability of the stated system --------------------------------------------------------
     und = {"violations": v, "fingerprint": fp("singular", problem, prog, ground, resol), "nontrivial": False,
            "outcome": "undefined_singular_program", "transitions": ntr, "skipped": "stated system singular (no sufficient support)"}
-    if resol in ("conn_fixed", "conn_hinged"):
+    if resol in ("conn_fixed", "conn_hinged", "conn_slider"):
         lspecs = lagrange_specs(spec, resol, None)
         ref = reference(K, F, entries, lspecs, orphan_dofs)
     else:
